@@ -91,15 +91,19 @@ def run(ctx):
         qlits = []
         nontrivial = False
         kws = []
+        conts = []
         for j, q in enumerate(qs):
             # later calls pass the same or different BFS arguments: the answer must be that of a fresh graph with the CURRENT arguments
             r0 = rng.random()
             kwj = kw if (j == 0 or r0 < 0.4) else ({} if r0 < 0.6 else {"max_diameter": rng.randint(1, 4)})
             kws.append(kwj)
             deff = eff_depth(kwj)
-            r, lit = P.res_path_lit(lambda: cayleypy.find_path(graph, list(q), **kwj))
+            cont = G.pick_container(rng, list(q), 0.7)         # the start state as a list, or as a NumPy array / tensor of any integer type that holds it
+            conts.append(cont)
+            ctx.count("start_container_" + cont)
+            r, lit = P.res_path_lit(lambda: cayleypy.find_path(graph, G.in_container(cont, list(q)), **kwj))
             qlits.append(f"({kwj.get('max_diameter') or 50}%N, {kwj.get('max_layer_size_to_explore') or 10**6}, {czl(q)}, {lit})")
-            case = {"graph": gd, "config": cfgd, "kwargs_per_call": kws[:], "queries": qs[: j + 1], "finder": "find_path"}
+            case = {"graph": gd, "config": cfgd, "kwargs_per_call": kws[:], "queries": qs[: j + 1], "containers": conts[:], "finder": "find_path"}
             d = dist_to_c.get(tuple(q))
             nontrivial = nontrivial or d is None or d >= 2
             ctx.count("fp_" + ("unreachable" if d is None else "within_2D" if d <= 2 * deff else "beyond_2D"))
@@ -107,7 +111,7 @@ def run(ctx):
             if msg:
                 ctx.violation("property_fails", msg, case, True)
             # history independence: the same call on a fresh object
-            fr, _ = P.res_path_lit(lambda: cayleypy.find_path(G.make_graph(gd, cfgd), list(q), **kwj))
+            fr, _ = P.res_path_lit(lambda: cayleypy.find_path(G.make_graph(gd, cfgd), list(q), **kwj))          # fresh object, plain list
             if fr != r:
                 ctx.violation("property_fails", f"find_path answers {r} after earlier calls but {fr} on a fresh graph", case, True)
         if len(layers) >= 4:
@@ -147,7 +151,8 @@ def replay(ctx, obj):
             layers, dist_to_c = G.ref_bfs(rg, [gd["central"]])
         sizes = [len(l) for l in layers]
         msg = None
-        for q, kw in zip(qs, kws):
+        for qi_, (q, kw) in enumerate(zip(qs, kws)):
+            cont = (case.get("containers") or ["list"] * len(qs))[qi_]
             deff = 0
             for i in range(1, (kw.get("max_diameter") or 50) + 1):
                 if i >= len(sizes):
@@ -155,7 +160,7 @@ def replay(ctx, obj):
                 deff = i
                 if sizes[i] >= (kw.get("max_layer_size_to_explore") or 10**6):
                     break
-            r, _ = P.res_path_lit(lambda: cayleypy.find_path(graph, list(q), **kw))
+            r, _ = P.res_path_lit(lambda: cayleypy.find_path(graph, G.in_container(cont, list(q)), **kw))
             msg = check_fp(gd, dist_to_c, deff, q, r)
             fr, _ = P.res_path_lit(lambda: cayleypy.find_path(G.make_graph(gd, cfgd), list(q), **kw))
             if msg is None and fr != r:
